@@ -356,6 +356,57 @@ def rule_conditions_keep_grouping(ctx):
     ctx.floor("C12.k generated statements", n, 2)
 
 
+def rule_helper_carries_source_only(ctx):
+    """C12.g2: what the helper table carries beside the join keys are columns of the *source*: a target column read by a SET /
+    VALUES expression (`SET bal = t.bal + s.bal`) is the target's current value in the mutation statement, never a copy in the
+    helper — a second column of the same name there makes `s.bal` ambiguous (or resolve to the target's value)."""
+    prog = ctx.prog
+
+    def ident(n):
+        return NodeV("Identifier", {"this": Const(n), "quoted": Const(False)}, name=f"id:{n}", open=False)
+
+    def col(t, c):
+        return node("Column", f"{t}.{c}", this=ident(c), table=ident(t))
+
+    def merge():
+        on = node("EQ", "on", this=col("TGT", "ID"), expression=col("SRC", "ID"))
+        add = node("Add", "sum", this=col("TGT", "BAL"), expression=col("SRC", "BAL"))
+        upd = node("Update", expressions=Lst([node("EQ", this=col("TGT", "BAL"), expression=add)]))
+        ins = node("Insert", this=node("Tuple", expressions=Lst([col("TGT", "BAL")])),
+                   expression=node("Tuple", expressions=Lst([node("Add", "sum2", this=col("SRC", "BAL"), expression=lit("1", False))])))
+        whens = Lst([node("When", "w0", matched=Const(True), then=upd), node("When", "w1", matched=Const(False), then=ins)])
+        return node("Merge", "merge", this=node("Table", "TGT", this=ident("TGT")), using=node("Table", "SRC", this=ident("SRC")),
+                    on=on, expressions=whens)
+
+    m = prog.mod("transforms_merge")
+    n = 0
+    for p in explore(prog, lambda: ExecHooks(None), lambda I: call_part(prog, I, "_create_merge_candidates", merge()), max_paths=32):
+        if p.outcome != "return":
+            continue
+        src = getattr(p.value, "parsed_from", None)
+        if not isinstance(src, Str):
+            continue
+        n += 1
+        from .c05 import _prov_nodes
+        # renderings placed before the CASE (the carried select list)
+        head = []
+        for x in src.parts:
+            if isinstance(x, str) and re.search(r"\bCASE\b", x, re.I):
+                break
+            head.append(x)
+        carried_nodes = [y.origin[1] for x in head if not isinstance(x, str) for y in _prov_nodes(x)
+                         if isinstance(y, Sym) and y.origin and y.origin[0] == "sql" and isinstance(y.origin[1], NodeV)]
+        bad = [nd.name for nd in carried_nodes if nd.cls == "Column" and isinstance(nd.args.get("table"), NodeV)
+               and isinstance(nd.args["table"].args.get("this"), Const) and nd.args["table"].args["this"].v == "TGT"]
+        ctx.ob("C12.g2", "the helper table carries no column of the MERGE target", not bad, m.path, str(bad))
+        if bad:
+            ctx.violation("C12.g2", "transforms_merge", "_create_merge_candidates", "target column carried into the helper table", m.path,
+                          f"the helper table selects {bad} — columns of the MERGE *target* — next to the source's: with `SET bal = t.bal + s.bal` it "
+                          f"holds two columns named bal, and `s.bal` in the UPDATE resolves to the target's own value (rows doubled, inserts NULL)")
+        break
+    ctx.floor("C12.g2 helper statements", n, 1)
+
+
 class MergeHooks(FullHooks):
     def external(self, I, d, args, kwargs, site):
         if d in ("sqlglot.parse_one",) and isinstance(kwargs.get("read"), Const) and kwargs["read"].v == "snowflake":
@@ -443,6 +494,7 @@ def rule_lifetime_and_bracket(ctx):
 from .c19 import rule_temporary_stays_private  # noqa: E402  (the helper is TEMPORARY in the template *and* at the engine)
 
 RULES = [
+    ("C12.g2", rule_helper_carries_source_only, ("quick", "thorough")),
     ("C12.k", rule_conditions_keep_grouping, ("quick", "thorough")),
     ("C12.j", rule_quoted_identifiers_kept, ("quick", "thorough")),
     ("C12.d2", rule_temporary_stays_private, ("quick", "thorough")),
